@@ -185,6 +185,15 @@ def run(tier):
         ctx.harness_gap(f"prologue record types not found: {sorted(types)}")
     else:
         c14.record_types(ContractCtx(ctx, "assumed:"), {k: types[k] for k in ("display_t", "play_t")})
+    # the device functions are called with the assignment target as the result parameter; when the target is also an
+    # operand (B = BUTTON(B), X = POINT(X, Y)) BASIC09 hands the procedure one variable twice: same result required
+    from vf.props import contracts
+
+    cctx = ContractCtx(ctx)
+    _lib = tvlib.load_library()
+    contracts.check_alias_equivalence(cctx, _lib, "ecb_button", "button", "retval", lambda c: contracts.integral(c["button"], 0, 3), "B = BUTTON(B)")
+    for arg in ("x", "y"):
+        contracts.check_alias_equivalence(cctx, _lib, "ecb_point", arg, "c0", lambda c: contracts.integral(c["x"], 0, 639) + contracts.integral(c["y"], 0, 191), f"{arg.upper()} = POINT(X, Y)")
     ctx.add_solver_stats(smt.STATS.export())
     ctx.extra["solver"] = {"z3": smt.z3_version()}
     ctx.explanation = "each program is one device statement; equality of every bound argument term with the reference operand is one obligation (identity or z3)"
